@@ -330,7 +330,7 @@ fn complex_alpha(rng: &mut Rng) -> (u64, Vec<u64>) {
     (0, tbl)
 }
 
-fn build_hand(name: &str, rng: &mut Rng) -> Built {
+pub fn build_hand(name: &str, rng: &mut Rng) -> Built {
     let mut params: Vec<u64> = vec![];
     let alphabets: Vec<(u64, Vec<u64>)>;
     let rig = match name {
